@@ -251,6 +251,9 @@ type Graph struct {
 	// setDuringStabilization is a list of nodes that were
 	// set during stabilization
 	setDuringStabilization map[Identifier]INode
+	// setDuringStabilizationRemoved holds nodes that were set during stabilization and
+	// then removed from the graph before the pass ended.
+	setDuringStabilizationRemoved []INode
 
 	// handleAfterStabilizationMu coordinates access to handleAfterStabilization
 	handleAfterStabilizationMu sync.Mutex
@@ -768,7 +771,14 @@ func (graph *Graph) zeroNode(n INode) {
 
 	graph.setDuringStabilizationMu.Lock()
 	if len(graph.setDuringStabilization) > 0 {
-		delete(graph.setDuringStabilization, nn.id)
+		if pending, ok := graph.setDuringStabilization[nn.id]; ok {
+			// the node leaves the graph, but the value set on it during this pass must
+			// still become its value when the pass ends; forgetting it here lost the
+			// write, and left it pending to overwrite a later Set whenever the var was
+			// next recomputed.
+			graph.setDuringStabilizationRemoved = append(graph.setDuringStabilizationRemoved, pending)
+			delete(graph.setDuringStabilization, nn.id)
+		}
 	}
 	graph.setDuringStabilizationMu.Unlock()
 
@@ -902,11 +912,17 @@ func (graph *Graph) stabilizeEndHandleSetDuringStabilization(ctx context.Context
 	// fast path; nothing was set during the pass so there is no work to do
 	// and no reason to acquire the lock. This read is safe because all
 	// recompute work (the only concurrent writer) has completed by now.
-	if len(graph.setDuringStabilization) == 0 {
+	if len(graph.setDuringStabilization) == 0 && len(graph.setDuringStabilizationRemoved) == 0 {
 		return
 	}
 	graph.setDuringStabilizationMu.Lock()
 	defer graph.setDuringStabilizationMu.Unlock()
+
+	for _, n := range graph.setDuringStabilizationRemoved {
+		applyDeferredSet(ctx, n)
+		graph.SetStale(n)
+	}
+	graph.setDuringStabilizationRemoved = nil
 
 	if graph.deterministic {
 		keys := make([]Identifier, 0, len(graph.setDuringStabilization))
